@@ -44,8 +44,26 @@ func main() {
 		nowrite   = flag.Bool("n", false, "do not write evidence")
 		lockstats = flag.String("lockstats", "", "discovery aid: comma-separated repo packages whose mutex-owning structs are profiled")
 		control   = flag.String("control", "", "internal: run the property's obligations on the tree with this patch applied as an overlay and print the violation keys")
+		dumpAnch  = flag.Bool("dump-anchors", false, "write <verif>/anchors.json (fingerprints of every function of the tree, used to follow renames)")
 	)
 	flag.Parse()
+	if _, err := os.Stat(filepath.Join(*verif, "anchors.json")); err == nil && !*dumpAnch {
+		kit.AnchorTablePath = filepath.Join(*verif, "anchors.json")
+	}
+	if *dumpAnch {
+		prog, err := kit.Load(*repo, nil, nil)
+		if err != nil {
+			fmt.Println(err)
+			os.Exit(2)
+		}
+		if err := prog.DumpAnchors(filepath.Join(*verif, "anchors.json")); err != nil {
+			fmt.Println(err)
+			os.Exit(2)
+		}
+		fmt.Println("anchors.json written:", len(prog.Funcs), "functions")
+		return
+	}
+
 	if *control != "" {
 		os.Exit(runControl(*repo, *verif, *prop, *control))
 	}
@@ -248,6 +266,9 @@ func run(repo, verif string, ids []string, tier, onlyOb string, nowrite, list bo
 	}
 	loadS := time.Since(start).Seconds()
 	fmt.Printf("analysed: %d repo packages, %d repo functions with bodies (load+SSA %.1fs)\n", len(prog.Pkgs), len(prog.Funcs), loadS)
+	for _, r := range prog.Renames {
+		fmt.Printf("  anchor follows a rename: %s\n", r)
+	}
 
 	var kf knownFile
 	if data, err := os.ReadFile(filepath.Join(verif, "known_findings.json")); err == nil {
@@ -512,6 +533,7 @@ func run(repo, verif string, ids []string, tier, onlyOb string, nowrite, list bo
 				"packages_analysed":   len(prog.Pkgs),
 				"functions_analysed":  len(prog.Funcs),
 				"counters":            counters,
+				"renamed_anchors":     prog.Renames,
 				"controls":            controls,
 				"exhaustive":          false,
 			},
